@@ -29,4 +29,24 @@ PROPS = {
         'assumptions': COMMON_ASSUME + ['context.WithCancel semantics of the Go standard library (a child is done iff it or its parent was cancelled)'],
         'notes': ['part (a) registry laws: proved for all op sequences; part (b) loop discipline: see Loops model when present'],
     },
+    'C07': {
+        'engines': [{'name': 'world', 'quick_args': ['-n', '60'], 'thorough_args': ['-n', '1200']},
+                    {'name': 'worldkf1', 'quick_args': ['-n', '25'], 'thorough_args': ['-n', '300']}],
+        'corr_modules': ['Term'],
+        'trusted_base': ['theorems in coq/props/C07.v about coq/theories/Term.v (proofs in TermFacts.v)'],
+        'assumptions': COMMON_ASSUME + ['signature flags: s_ok of a received (header, sender) pair is what KeyManager.VerifyConsensusMessage returns for it', 'raw-message filter delivers only messages of the term height (C17)'],
+        'notes': ['full statement refuted by known finding KF-1 (standalone PREPREPARE in a view above 0); proved theorem is the partial one'],
+    },
+    'C08': {
+        'engines': [{'name': 'world', 'quick_args': ['-n', '60'], 'thorough_args': ['-n', '1200']}],
+        'corr_modules': ['Term'],
+        'trusted_base': ['theorems in coq/props/C08.v about coq/theories/Term.v (proofs in TermFacts.v)'],
+        'assumptions': COMMON_ASSUME + ['signature flags as in C07', 'membership = ids of the committee returned by Membership for the height'],
+    },
+    'C10': {
+        'engines': [{'name': 'world', 'quick_args': ['-n', '60'], 'thorough_args': ['-n', '1200']}],
+        'corr_modules': ['Term'],
+        'trusted_base': ['theorems in coq/props/C10.v about coq/theories/Term.v (proofs in TermFacts.v)'],
+        'assumptions': COMMON_ASSUME + ['committee total weight < 2^64', 'one term per height (C13)'],
+    },
 }
